@@ -35,6 +35,10 @@ class Rng:
                 return x
             r -= w
         return pairs[-1][0]
+    def shuffle(self, xs):
+        for i in range(len(xs) - 1, 0, -1):
+            j = self.below(i + 1)
+            xs[i], xs[j] = xs[j], xs[i]
     def fork(self):
         return Rng(self.next())
 
